@@ -611,3 +611,33 @@ pub fn comp_over_level2() -> CompOverLevel2 {
     let off = base.l1.len() + base.l1.len() * base.uops.len();
     CompOverLevel2 { base, off }
 }
+
+/// states with many explicit intervals: unions of two-letter words with distinct first letters over twelve adjacent
+/// single characters (universe 3), alone and under the usual operators
+pub fn many_ranges() -> ListFamily {
+    let u = Universe::new(3);
+    let ch = |i: u8| Rc::new(P::Rng(i, i)); // regions 1..=12 are the letters
+    let mut items = vec![];
+    for n in [9usize, 10, 12] {
+        for shift in [1usize, 5] {
+            // word i = letter_i . letter_{(i+shift) mod n}
+            let words: Vec<Rc<P>> = (0..n).map(|i| Rc::new(P::Concat(ch(1 + i as u8), ch(1 + ((i + shift) % n) as u8)))).collect();
+            let un = Rc::new(P::UnionL(words.clone()));
+            items.push((*un).clone());
+            items.push(P::Star(un.clone()));
+            items.push(P::Comp(un.clone()));
+            items.push(P::Loop(un.clone(), 1, 2));
+            items.push(P::Inter(Rc::new(P::Comp(un.clone())), Rc::new(P::Pow(Rc::new(P::AllChar), 2))));
+            items.push(P::Concat(un.clone(), Rc::new(P::Opt(un.clone()))));
+            // the same with ranges of two letters and a gap
+            let pairs: Vec<Rc<P>> = (0..n / 2).map(|i| Rc::new(P::Concat(Rc::new(P::Rng(1 + 2 * i as u8, 2 + 2 * i as u8)), ch(1 + ((2 * i + shift) % n) as u8)))).collect();
+            items.push(P::UnionL(pairs.clone()));
+            items.push(P::Star(Rc::new(P::UnionL(pairs))));
+        }
+    }
+    // every single letter followed by a different letter each: twelve classes in one state
+    let all12: Vec<Rc<P>> = (0..12u8).map(|i| Rc::new(P::Concat(ch(1 + i), ch(1 + (i * 5 + 3) % 12)))).collect();
+    items.push(P::UnionL(all12.clone()));
+    items.push(P::Diff(Rc::new(P::Pow(Rc::new(P::Rng(1, 12)), 2)), Rc::new(P::UnionL(all12))));
+    ListFamily { name: "many ranges/u3 (states with 9-12 explicit intervals)".into(), u, items, shallow: 0 }
+}
